@@ -84,9 +84,11 @@ func (v polVisitor) VisitPackage(p pgs.Package) (pgs.Visitor, error) {
 	}
 	return v.visit(ref{900000 + i, []int{}})
 }
-func (v polVisitor) VisitFile(e pgs.File) (pgs.Visitor, error)       { return v.visit(v.run.r.refOf(e)) }
-func (v polVisitor) VisitMessage(e pgs.Message) (pgs.Visitor, error) { return v.visit(v.run.r.refOf(e)) }
-func (v polVisitor) VisitEnum(e pgs.Enum) (pgs.Visitor, error)       { return v.visit(v.run.r.refOf(e)) }
+func (v polVisitor) VisitFile(e pgs.File) (pgs.Visitor, error) { return v.visit(v.run.r.refOf(e)) }
+func (v polVisitor) VisitMessage(e pgs.Message) (pgs.Visitor, error) {
+	return v.visit(v.run.r.refOf(e))
+}
+func (v polVisitor) VisitEnum(e pgs.Enum) (pgs.Visitor, error) { return v.visit(v.run.r.refOf(e)) }
 func (v polVisitor) VisitEnumValue(e pgs.EnumValue) (pgs.Visitor, error) {
 	return v.visit(v.run.r.refOf(e))
 }
@@ -94,9 +96,11 @@ func (v polVisitor) VisitField(e pgs.Field) (pgs.Visitor, error) { return v.visi
 func (v polVisitor) VisitExtension(e pgs.Extension) (pgs.Visitor, error) {
 	return v.visit(v.run.r.refOf(e))
 }
-func (v polVisitor) VisitOneOf(e pgs.OneOf) (pgs.Visitor, error)     { return v.visit(v.run.r.refOf(e)) }
-func (v polVisitor) VisitService(e pgs.Service) (pgs.Visitor, error) { return v.visit(v.run.r.refOf(e)) }
-func (v polVisitor) VisitMethod(e pgs.Method) (pgs.Visitor, error)   { return v.visit(v.run.r.refOf(e)) }
+func (v polVisitor) VisitOneOf(e pgs.OneOf) (pgs.Visitor, error) { return v.visit(v.run.r.refOf(e)) }
+func (v polVisitor) VisitService(e pgs.Service) (pgs.Visitor, error) {
+	return v.visit(v.run.r.refOf(e))
+}
+func (v polVisitor) VisitMethod(e pgs.Method) (pgs.Visitor, error) { return v.visit(v.run.r.refOf(e)) }
 
 func observeC07(r *astRun) interface{} {
 	if r.failed {
